@@ -43,7 +43,7 @@ type c06Stats struct {
 
 func runForgeScenarios(rng *rand.Rand, n int, st *c06Stats, fail func(prop, mon, key, detail string, c interface{})) {
 	ctx := context.Background()
-	kinds := []string{"nosig", "wrongsig", "nokey", "otherkey", "flipsig", "foreignid", "aclpayload", "forgedhead", "payload", "destkey"}
+	kinds := []string{"nosig", "wrongsig", "nokey", "otherkey", "flipsig", "foreignid", "aclpayload", "forgedhead", "payload", "destkey", "relabel"}
 	for it := 0; it < n; it++ {
 		w := newWorld()
 		// an access controller whose verdict depends on the entry, not only on its writer
@@ -125,6 +125,12 @@ func runForgeScenarios(rng *rand.Rand, n int, st *c06Stats, fail func(prop, mon,
 				c.Key = w.idents["C"].PublicKey // the key of the very log that merges
 			case "payload":
 				c.Payload = append([]byte("tampered-"), e.GetPayload()...) // same hash, key and signature
+			case "relabel":
+				// the genuine, validly signed entry, filed under its own hash but CLAIMING the hash of an
+				// entry the destination already holds (nothing to relabel with when the destination is empty)
+				if held := dest.GetEntries().Slice(); len(held) > 0 {
+					c.Hash = held[rng.Intn(len(held))].GetHash()
+				}
 			}
 			forgedMap.Set(e.GetHash().String(), c)
 		}
@@ -174,6 +180,22 @@ func runForgeScenarios(rng *rand.Rand, n int, st *c06Stats, fail func(prop, mon,
 			}()
 			_, jerr = dest.Join(forged, -1)
 		}()
+		if kind == "relabel" {
+			// whatever the merge does with the relabelled object, every entry the destination held is still
+			// there under its hash, byte for byte
+			after := snapLog(dest)
+			for hsh, ser := range before.entries {
+				if cur, ok := after.entries[hsh]; !ok {
+					fail("C05", "entries-never-vanish", "C05:entry-vanished", "a held entry vanished when a log with a relabelled entry was merged", caseInfo)
+					break
+				} else if cur != ser {
+					fail("C05", "entries-immutable", "C05:entry-mutated", "a held entry was replaced by another object when a log with a relabelled entry was merged", caseInfo)
+					break
+				}
+			}
+			st.rejected++
+			continue
+		}
 		if kind == "foreignid" || kind == "forgedhead" {
 			// entries of another log / unverified objects are never added or exposed (the merge may skip them
 			// or fail, it must not admit them): whatever the log lists, returns as heads or linearises is an
